@@ -36,15 +36,15 @@ checks = {
  'C11': dict(cat='exploration', ref='6/C11', tech='runtime monitoring: differential comparison of every codec call with an independent reference codec over enumerated sub-domains',
    text='All 65536 channel numbers x small lengths, every payload length (quick <= 4159, thorough <= 65535), raw buffers over header class x declared/actual relation, and for each of 11 attributes typed round trips plus all raw values of length 0..2 and random raw values of every length 3..64, each compared with a reference codec written from the RFC layouts; panics are violations.'),
  'C12': dict(cat='fault_enumeration', ref='6/C12', tech='runtime monitoring: fault enumeration over lost transmissions with an arithmetic timetable oracle in virtual time, response identity tags, transaction-table hook',
-   text='All 2^7 subsets of lost transmissions (thorough x 5 response-delay policies x 7 RTOs), foreign-id/duplicate/late/echoed responses, 2-8 concurrent transactions with permuted answers, Close after each transmission, write error on each transmission, response delivered during the first write; arrival offsets, count, return instant and returned response are compared exactly with the RTO-doubling/1.6 s-cap schedule and the table must be empty afterwards.'),
+   text='All 2^7 subsets of lost transmissions (thorough x 5 response-delay policies x 7 RTOs), foreign-id/duplicate/late/echoed responses, 2-8 concurrent transactions with permuted answers, Close after each transmission, write error on each transmission, response delivered during the first write; arrival offsets, count, return instant and returned response are compared exactly with the RTO-doubling/1.6 s-cap schedule and the table must be empty afterwards. The whole turn.Client is also run on a network that delivers every response twice (late twins overtaking the Allocate success): calls return what the server answered to them, different requests never share a transaction id on the wire.'),
  'C13': dict(cat='exploration', ref='6/C13', tech='runtime monitoring: happens-before checker over the scripted server\'s wire log + FIFO comparison of ReadFrom results + binding-table hook assertions, virtual time',
-   text='Real client and relayed PacketConn against a scripted TURN server whose reactions to CreatePermission/ChannelBind are drawn from {success,400,403,438 xN,silence}: no Send/ChannelData before the matching success was delivered, payload tags name the peer they were written for, channel numbers unique and in range on the wire and in the hooked table (also under concurrent writers), ReadFrom returns exactly what was relayed in order (incl. cookie-prefixed payloads, unknown channels, 1100-datagram bursts without reader), deadlines fire at exact virtual instants, Close fails later calls, unaccepted ConnectionAttempt floods do not stall the inbound path.'),
+   text='Real client and relayed PacketConn against a scripted TURN server whose reactions to CreatePermission/ChannelBind are drawn from {success,400,403,438 xN,silence}: no Send/ChannelData before the matching success was delivered, payload tags name the peer they were written for, channel numbers unique and in range on the wire and in the hooked table (also under concurrent writers), ReadFrom returns exactly what was relayed in order (incl. cookie-prefixed payloads, unknown channels, 1100-datagram bursts without reader), deadlines fire at exact virtual instants, Close fails later calls, unaccepted ConnectionAttempt floods do not stall the inbound path; explicit Client.CreatePermission calls that the server refuses authorise nothing.'),
  'C14': dict(cat='exploration', ref='6/C14', tech='runtime monitoring: bounded-liveness probes (tagged datagrams both ways) over virtual hours with a fault plan on control transactions, AllocationCount assertions',
    text='Bounded restatement: a real client against a real server keeps relaying for 3 h (thorough: up to 48 h) of virtual time across allocation/permission/channel/nonce horizons under 8 traffic patterns (incl. dense probing around the hourly nonce rollover and idle periods up to 3 h), 6 server timeout configurations and loss/duplication/reordering of control transactions; every probe must arrive with the right source/attribution, AllocationCount is 1 while open and 0 after Close. One known finding (Close inside the stale-nonce window) is listed in KNOWN_FINDINGS.json.'),
  'C15': dict(cat='fault_enumeration', ref='6/C15', tech='runtime monitoring: fault injection (teardown cause x history prefix x slow callback) with resource-ledger, event-pairing, armed-timer hook and goroutine-census monitors at quiescent points',
    text='After random base histories one teardown cause (expiry, Refresh 0, control-connection close, relay read/accept/write error, Server.Close) is injected, optionally during a slow lifecycle callback; at every quiescent point the relay-socket ledger, created/deleted event pairing, hooked server state, armed timers on closed allocations, goroutines by function and AllocationCount must agree with the model; after Server.Close nothing may remain or happen for two virtual hours.'),
  'C16': dict(cat='exploration', ref='6/C16', tech='runtime monitoring: model of peer connections + byte-stream equality at quiescent points + lock probes and liveness requests after each step',
-   text='RFC 6062 histories on simulated TCP: Connect (listening / absent / duplicate peer), inbound connections from permitted and unpermitted IPs, ConnectionBind (right, wrong id, wrong user, repeated; <=29 s and >=31 s), 0..64 KiB streams both ways under random segmentation, closes from either side; ids unique and backed by real peer connections, bind once/owner only/in time, bytes equal in order, 446 on duplicates with manager locks free and the server still answering.'),
+   text='RFC 6062 histories on simulated TCP: Connect (listening / absent / duplicate peer), inbound connections from permitted and unpermitted IPs, ConnectionBind (right, wrong id, wrong user, repeated; <=29 s and >=31 s), 0..64 KiB streams both ways under random segmentation, closes from either side; ids unique and backed by real peer connections, bind once/owner only/in time, bytes equal in order, 446 on duplicates with manager locks free and the server still answering; one case in a hundred on operating-system TCP sockets (slow peer, client closes right after writing up to 3 MiB: every byte arrives, then a clean end of stream).'),
  'C17': dict(cat='exploration', ref='6/C17', tech='runtime monitoring: handler calls at every second around expiry under a virtual clock compared with own HMAC/MD5 computation; mutation of credentials; end-to-end Allocate',
    text='Both generator/handler pairs x secrets x users x realms x durations (incl. 0 and negative): ok == (now <= expiry) at every second of [expiry-5 s, expiry+5 s] and far instants, key == MD5(username:realm:password), integrity of messages signed with issued / mutated / foreign-secret / foreign-username passwords, single-character username mutations, malformed timestamps, cross-format pairing; plus Allocate through a real server/client just before and after expiry.'),
  'C18': dict(cat='exploration', ref='6/C18', tech='Go race detector over real-time stress and virtual-time forced schedules; panic/hang detection by child-process supervision; TryLock probes on hooked mutexes; porcupine on concurrent histories',
